@@ -25,6 +25,7 @@ class W:
         self.dc = dc
         self.pos = {}
         self.fresh = True           # at the start of a line (indent not yet written)
+        self.sline = self.scol = 1  # start of the innermost statement being written
         for _ in range(dl):
             self.out.append("\n")
             self.line += 1
@@ -51,8 +52,12 @@ class W:
         self.fresh = True
 
     def mark(self, nid):
+        """node position, and the position of the statement it belongs to"""
         if nid:
-            self.pos[str(nid)] = [self.line, self.col]
+            self.pos[str(nid)] = [self.line, self.col, self.sline, self.scol]
+
+    def stmt_begins(self):
+        self.sline, self.scol = self.line, self.col
 
 
 def ident(x):
@@ -231,6 +236,7 @@ def stmt(w, s, depth, inline=False):
     k = s["s"]
     if not inline:
         w.start(depth)
+    w.stmt_begins()
     if k == "expr":
         x = s["x"]
         expr(w, x, depth, top=(x["e"] not in ("obj", "fun")))
